@@ -239,6 +239,15 @@ def c04_case(args):
         dflt = [i for i in fcp.impls if i.protocol == "default" and i.type == impl.type][0]
         again = [_piece(v) for v in enc.generate(dflt)]
         fresh = [_piece(v) for v in make_encoder("packed", fcp, PackedEncoderContext().with_unroll_arrays(unroll)).generate(dflt)]
+        # ... and the same binding once more, by the same and by a new encoder: laying a binding out must not change what
+        # a later layout of it says (options included)
+        first = [_piece(v) for v in out]
+        tag = lambda t, p_: (t + p_[0],) + tuple(p_[1:])
+        again += [tag("again:", _piece(v)) for v in enc.generate(impl)]
+        fresh += [tag("again:", p_) for p_ in first]
+        again += [tag("anew:", _piece(v)) for v in
+                  make_encoder("packed", fcp, PackedEncoderContext().with_unroll_arrays(unroll)).generate(impl)]
+        fresh += [tag("anew:", p_) for p_ in first]
         return out, before == after, again, fresh
 
     def env_of():
